@@ -206,7 +206,9 @@ theorem minimumMaj23_wraps : (minimumMaj23 (UInt64.ofNat (2 ^ 63))).toNat = 1 :=
 /-- "+2/3 reached" and "partial certificate" are complementary tests against the same threshold -/
 theorem hasMaj23_iff (voted m : UInt64) : hasMaj23 voted m = true ↔ m.toNat ≤ voted.toNat := by
   unfold hasMaj23; simp [UInt64.le_iff_toNat_le]
-theorem isPartialQC_iff (voted m : UInt64) : isPartialQC voted m = !(hasMaj23 voted m) := by
+/-- the replica-side test (`AggregateSignature.Check`) is the complement of the leader-side one (`GetMajorityVote`), against the
+    same `MinimumMaj23` — whatever the total power -/
+theorem isPartialQC_iff (voted m t : UInt64) : isPartialQC voted m t = !(hasMaj23 voted m) := by
   unfold isPartialQC hasMaj23
   by_cases h : voted < m
   · simp [h, UInt64.not_le]
